@@ -82,12 +82,14 @@ Qed.
    applied to the base the reader computed, is the address taddr of segment tsid. *)
 Definition resolves_to (ms : segs) (sid off tsid taddr raw : Z) : Prop :=
   exists base val,
-    resolveFarPointer ms sid (nth (Z.to_nat sid) ms []) off = Ok (tsid, nth (Z.to_nat tsid) ms [], base, val) /\
+    (forall strict, resolveFarPointer strict ms sid (nth (Z.to_nat sid) ms []) off = Ok (tsid, nth (Z.to_nat tsid) ms [], base, val)) /\
     word64 val /\ pointerType val = pointerType raw /\ structSize val = structSize raw /\
     listType val = listType raw /\ numListElements val = numListElements raw /\
     element base (ptr_offset val) 8 = Some taddr.
 
-Definition raw_ok (raw : Z) : Prop := word64 raw /\ raw mod 4 < 2 /\ ptr_offset raw = 0.
+(* a non-null struct / list pointer word with zero offset (writePtr never places the zero word:
+   zero-sized structs are encoded inline with offset -1, list words have the type bit set) *)
+Definition raw_ok (raw : Z) : Prop := word64 raw /\ raw mod 4 < 2 /\ ptr_offset raw = 0 /\ raw <> 0.
 
 Lemma raw_type raw : raw mod 4 < 2 -> 0 <= raw ->
   (pointerType raw = structPointer \/ pointerType raw = listPointer) /\
@@ -116,7 +118,7 @@ Lemma place_near m dsid off taddr raw m' :
   resolves_to (bm_data m') dsid off dsid taddr raw /\
   wrote m m' dsid off (le_encode 8 (withOffset raw (nearPointerOffset off taddr))).
 Proof.
-  intros Hd Hsm (Rw & Rt & Ro) Ho Ht Hta H.
+  intros Hd Hsm (Rw & Rt & Ro & Rnz) Ho Ht Hta H.
   apply writeRawPointer_wrote in H; auto. split; [|exact H].
   pose proof (Hsm dsid) as Hl. unfold maxSegmentSize in Hl.
   destruct H as (W1 & W2 & Wr). change (zlen (le_encode 8 _)) with 8 in W2.
@@ -128,7 +130,7 @@ Proof.
   assert (Rd : readRawPointer (mem m' dsid) off = Ok v) by (apply (wrote_word_back m m'); auto; lia).
   unfold word64 in Rw. destruct (raw_type raw Rt ltac:(lia)) as (_ & T1 & T2).
   exists (off + 8), v. rewrite !nth_bm_data. split.
-  - unfold resolveFarPointer. rewrite Rd. cbn [bind]. cbv zeta. rewrite Q2, T1, T2.
+  - intros strict. unfold resolveFarPointer. rewrite Rd. cbn [bind]. cbv zeta. rewrite Q2, T1, T2.
     unfold addSize. cbv zeta. destruct (off + 8 >? maxSegmentSize) eqn:E; [unfold maxSegmentSize in E; lia|]. reflexivity.
   - split; [exact Q1|]. split; [exact Q2|]. split; [exact Q4|]. split; [exact Q5|]. split; [exact Q6|].
     rewrite Q3. apply element_words; [unfold maxSegmentSize; lia|lia].
@@ -225,7 +227,7 @@ Proof.
       pose proof (Hsm tsid) as Hlt. pose proof (Hsm dsid) as Hld. unfold maxSegmentSize in *.
       assert (Hpa : 0 <= padAddr <= 4294967288) by (pose proof (zlen_nonneg (mem m tsid)); lia).
       destruct (nearPointerOffset_ok padAddr taddr) as [N1 N2]; try lia.
-      destruct Hraw as (Rw & Rt & Ro).
+      destruct Hraw as (Rw & Rt & Ro & Rnz).
       destruct (withOffset_roundtrip raw (nearPointerOffset padAddr taddr) Rw N1 Rt) as (Q1 & Q2 & Q3 & Q4 & Q5 & Q6).
       cbv zeta in *. set (pv := withOffset raw (nearPointerOffset padAddr taddr)) in *.
       destruct (far_pointer_roundtrip tsid padAddr ltac:(lia) ltac:(lia)) as (F1 & F2 & F3 & F4).
@@ -245,7 +247,7 @@ Proof.
       unfold word64 in Rw. destruct (raw_type raw Rt ltac:(lia)) as (_ & T1 & T2).
       split.
       { exists (padAddr + 8), pv. rewrite !nth_bm_data. split.
-        - unfold resolveFarPointer. rewrite Rfar. cbn [bind]. cbv zeta. rewrite F2.
+        - intros strict. unfold resolveFarPointer. rewrite Rfar. cbn [bind]. cbv zeta. rewrite F2.
           change (farPointer =? doubleFarPointer) with false. change (farPointer =? farPointer) with true.
           cbv iota. rewrite F4. destruct (tsid =? dsid) eqn:E; [lia|].
           rewrite lookup_segment_bm by lia. cbn [bind]. rewrite F3.
@@ -292,7 +294,7 @@ Proof.
       assert (Hpa : 0 <= padAddr <= 4294967288 - 16) by lia.
       assert (EP8 : addSizeUnchecked padAddr 8 = padAddr + 8) by (unfold addSizeUnchecked, u32; lia).
       rewrite EP8 in *.
-      destruct Hraw as (Rw & Rt & Ro).
+      destruct Hraw as (Rw & Rt & Ro & Rnz).
       destruct (far_pointer_roundtrip tsid taddr ltac:(lia) ltac:(lia)) as (F1 & F2 & F3 & F4).
       cbv zeta in *. set (fv := rawFarPointer tsid taddr) in *.
       destruct (double_far_pointer_roundtrip psid padAddr ltac:(lia) ltac:(lia)) as (D1 & D2 & D3 & D4).
@@ -327,7 +329,7 @@ Proof.
       unfold word64 in Rw. destruct (raw_type raw Rt ltac:(lia)) as (T0 & T1 & T2).
       split.
       { exists 0, (landingPadNearPointer fv raw). rewrite !nth_bm_data. split.
-        - unfold resolveFarPointer. rewrite Rd. cbn [bind]. cbv zeta. rewrite D2.
+        - intros strict. unfold resolveFarPointer. rewrite Rd. cbn [bind]. cbv zeta. rewrite D2.
           change (doubleFarPointer =? doubleFarPointer) with true. cbv iota. rewrite D4.
           match goal with |- bind ?X _ = _ => assert (HPS : X = Ok (mem m4 psid)) end.
           { destruct (psid =? dsid) eqn:E; [assert (EQ : psid = dsid) by lia; rewrite EQ; reflexivity|].
@@ -340,7 +342,14 @@ Proof.
           assert (HT : (negb (pointerType raw =? structPointer) && negb (pointerType raw =? listPointer)) || negb (0 =? 0) = false).
           { destruct T0 as [-> | ->]; reflexivity. }
           rewrite HT. rewrite F4.
-          destruct (tsid =? dsid) eqn:E3; [lia|]. rewrite lookup_segment_bm by lia. reflexivity.
+          destruct (tsid =? dsid) eqn:E3; [lia|]. rewrite lookup_segment_bm by lia. cbn [bind].
+          (* the repaired reader's special case (pad resolving to the zero word) does not arise:
+             the tag written is not the zero word *)
+          assert (Hnz : (landingPadNearPointer fv raw =? 0) = false).
+          { rewrite landingPadNearPointer_sum by (right; exact Rt).
+            unfold ptr_offset, s32, u32 in *. cbv zeta in Ro.
+            destruct (raw mod 4294967296 <? 2147483648) eqn:EE; lia. }
+          rewrite Hnz. rewrite Bool.andb_false_r. reflexivity.
         - split; [exact P1|]. split; [exact P2|]. split; [exact P4|]. split; [exact P5|]. split; [exact P6|].
           unfold ArithMore.resolve in P7. rewrite P7. rewrite F3. f_equal. lia. }
       destruct EW2 as (V1 & V2 & V3 & V4 & V5 & V6 & V7 & V8 & V9 & V10).
@@ -376,7 +385,7 @@ Theorem resolved_read_struct strict ms rl sid off tsid taddr raw depth :
    rl - totalSize (structSize raw)).
 Proof.
   intros (base & val & R & Vw & Vt & Vs & _ & _ & Ve) Hst Hnz Hin Hd Hrl.
-  unfold readPtr. rewrite R.
+  unfold readPtr. rewrite (R strict).
   assert (Hv0 : (val =? 0) = false).
   { destruct (val =? 0) eqn:E; auto. assert (val = 0) by lia. subst val.
     rewrite <- Vs in Hnz. cbv in Hnz. discriminate. }
@@ -403,7 +412,7 @@ Theorem resolved_read_list strict ms rl sid off tsid taddr raw depth lsize es :
    rl - list_readSize lp).
 Proof.
   intros (base & val & R & Vw & Vt & Vs & Vl & Vn & Ve) Hlt H7 Hts Hes Hin Hd lp Hrl.
-  unfold readPtr. rewrite R.
+  unfold readPtr. rewrite (R strict).
   assert (Hv0 : (val =? 0) = false).
   { destruct (val =? 0) eqn:E; auto. assert (val = 0) by lia. subst val.
     rewrite Hlt in Vt. cbv in Vt. discriminate. }
